@@ -73,7 +73,8 @@ fn budget_out(b: &Budget) -> String {
     let p = guard(|| b.p());
     let d = guard(|| b.d());
     let q = guard(|| b.q());
-    format!("(COk {} [{}; {}; {}])", zlist(&vals), rz(&p), rz(&d), rz(&q))
+    // Budget::is_empty rides along as a fourth "accessor" (0 / 1): the model's budget_is_empty was compared nowhere
+    format!("(COk {} [{}; {}; {}; ROk {}])", zlist(&vals), rz(&p), rz(&d), rz(&q), b.is_empty() as u8)
 }
 
 pub fn run(o: &Opts) -> Report {
